@@ -75,7 +75,7 @@ impl SymbolSupplier for GenSupplier {
             b.clone()
         } else if let Some((seed, cpu, os, feat)) = &self.fallback {
             let mut rng = Rng::new(seed ^ fnv64(name.as_bytes()));
-            pg::gen_symbols(&mut rng, cpu, os, &name, module.size().min(u32::MAX as u64) as u32, *feat)
+            pg::gen_symbols(&mut rng, cpu, os, &name, module.base_address(), module.size().min(u32::MAX as u64) as u32, *feat)
         } else {
             return Err(SymbolError::NotFound);
         };
@@ -92,6 +92,9 @@ struct Counting {
     inner: Symbolizer,
     calls: AtomicU64,
     limit: u64,
+    /// `walk_frame` is asked at most once per produced frame
+    walks: AtomicU64,
+    walk_limit: u64,
 }
 
 #[async_trait::async_trait]
@@ -103,6 +106,9 @@ impl SymbolProvider for Counting {
         self.inner.fill_symbol(module, frame).await
     }
     async fn walk_frame(&self, module: &(dyn minidump_common::traits::Module + Sync), walker: &mut (dyn FrameWalker + Send)) -> Option<()> {
+        if self.walks.fetch_add(1, Ordering::Relaxed) > self.walk_limit {
+            panic!("runaway-walk: more than {} frames unwound", self.walk_limit);
+        }
         self.inner.walk_frame(module, walker).await
     }
     async fn get_file_path(&self, module: &(dyn minidump_common::traits::Module + Sync), file_kind: FileKind) -> Result<PathBuf, FileError> {
@@ -277,7 +283,17 @@ fn run_pipeline(m: Materialised) -> PipeResult {
     let total_mem: u64 = catch(|| dump.get_memory().map(|ml| ml.iter().map(|m| m.size().min(1 << 20)).sum::<u64>()).unwrap_or(0)).unwrap_or(0);
     let nthreads = catch(|| dump.get_stream::<MinidumpThreadList>().map(|t| t.threads.len() as u64).unwrap_or(0)).unwrap_or(0);
     let limit = (total_mem + 2 * nthreads + 16).saturating_mul(400).min(50_000_000);
-    let provider = Counting { inner: Symbolizer::new(m.supplier), calls: AtomicU64::new(0), limit };
+    let max_mem: u64 = catch(|| dump.get_memory().map(|ml| ml.iter().map(|m| m.size().min(1 << 24)).max().unwrap_or(0)).unwrap_or(0)).unwrap_or(0);
+    // a thread's own stack descriptor counts too (it is used even when the memory lists are unreadable)
+    let walk_limit = catch(|| {
+        let ml = dump.get_memory().unwrap_or_default();
+        dump.get_stream::<MinidumpThreadList>()
+            .map(|tl| tl.threads.iter().map(|t| t.stack_memory(&ml).map(|m| m.size()).unwrap_or(0).max(max_mem).min(1 << 24) + 2).sum::<u64>())
+            .unwrap_or(0)
+    })
+    .unwrap_or(0)
+        + 64;
+    let provider = Counting { inner: Symbolizer::new(m.supplier), calls: AtomicU64::new(0), limit, walks: AtomicU64::new(0), walk_limit };
     let evil = m.evil.as_deref().map(evil_path);
     let mut subs = PendingProcessorStatSubscriptions::default();
     subs.thread_count = true;
@@ -414,6 +430,7 @@ fn run_pipeline(m: Materialised) -> PipeResult {
 
     // ---- render
     let mut json_compact: Option<Vec<u8>> = None;
+    let mut text_full: Option<Vec<u8>> = None;
     for (what, f) in [
         ("print", Box::new(|s: &ProcessState, v: &mut Vec<u8>| s.print(v).map_err(|e| e.to_string())) as Box<dyn Fn(&ProcessState, &mut Vec<u8>) -> Result<(), String>>),
         ("print_brief", Box::new(|s: &ProcessState, v: &mut Vec<u8>| s.print_brief(v).map_err(|e| e.to_string()))),
@@ -436,12 +453,14 @@ fn run_pipeline(m: Materialised) -> PipeResult {
                     }
                 } else if v.is_empty() {
                     res.oracle.push(("render-fails".into(), format!("{what}: empty output")));
+                } else if what == "print" {
+                    text_full = Some(v);
                 }
             }
         }
     }
     // ---- the kernels: inputs extracted from the dump / the state, answers from the state / the JSON
-    res.kernel = catch(|| kernels::pipeline_kernels(&dump, &state, json_compact.as_deref(), &bounds)).unwrap_or(None);
+    res.kernel = catch(|| kernels::pipeline_kernels(&dump, &state, json_compact.as_deref(), text_full.as_deref(), &bounds)).unwrap_or(None);
     res
 }
 
@@ -585,18 +604,16 @@ impl Engine for Process {
     }
 
     fn model_request(&self, case: &str) -> Option<String> {
-        let f: Vec<&str> = case.split(' ').filter(|s| !s.is_empty()).collect();
-        if matches!(f.get(1), Some(&"gen") | Some(&"file") | Some(&"raw")) {
-            let cached = LAST.with(|l| l.borrow().as_ref().filter(|(c, _)| c == case).map(|(_, r)| r.clone()));
-            return match cached {
-                Some(r) => r,
-                None => {
-                    let p = parse_pipe(&f)?;
-                    run_with_budget(&p)?.kernel.map(|(req, _)| req)
-                }
-            };
+        // the request is derived from what the implementation produced (kernel inputs extracted from
+        // the dump / the state); `exec` leaves it here
+        let cached = LAST.with(|l| l.borrow().as_ref().filter(|(c, _)| c == case).map(|(_, r)| r.clone()));
+        match cached {
+            Some(r) => r,
+            None => {
+                let _ = self.exec(case);
+                LAST.with(|l| l.borrow().as_ref().filter(|(c, _)| c == case).and_then(|(_, r)| r.clone()))
+            }
         }
-        Some(case.to_string())
     }
 
     fn exec(&self, case: &str) -> ImplResult {
@@ -631,7 +648,8 @@ impl Engine for Process {
             }
             return res;
         }
-        kernels::exec(&f, &mut res);
+        let req = kernels::exec(&f, &mut res);
+        LAST.with(|l| *l.borrow_mut() = Some((case.to_string(), req)));
         res
     }
 
